@@ -1165,7 +1165,7 @@ Section WalletProofs.
   Qed.
 
   (** An operation that reports an error (or "no such account") leaves the client unchanged. *)
-  Definition is_success (r : res) : bool := match r with ROk | RKey _ => true | _ => false end.
+  Notation is_success := (is_success key).
   Lemma add_result_cases : forall w x w' r, add_account_data w x = (w', r) ->
     r = ROk \/ ((r = ESigScheme \/ r = EDupLabel \/ r = EDupAddr) /\ w' = w).
   Proof.
@@ -1214,6 +1214,48 @@ Section WalletProofs.
   Proof.
     intros w E. unfold newacct_params, chpwd_params, open_params, site_params. rewrite E.
     destruct newaccount_uses_wallet_scrypt, changepassword_uses_wallet_scrypt, getaccount_uses_wallet_scrypt; auto.
+  Qed.
+
+  (** *** save() failing *)
+  Notation step_sf := (step_sf key blob enc dec).
+  Notation run_sf := (run_sf key blob enc dec).
+
+  (** A step whose save fails is the identity on the client (and therefore on the file, which is
+      [save] of the client), and it reports an error. *)
+  Theorem failed_save_is_identity : forall w o, reaches_save key blob enc dec w o = true ->
+    step_sf true w o = (w, ESave).
+  Proof. intros w o H. unfold Wallet.step_sf. rewrite H. reflexivity. Qed.
+
+  Theorem failed_step_sf_unchanged : forall b w o, is_success (snd (step_sf b w o)) = false -> fst (step_sf b w o) = w.
+  Proof.
+    intros b w o. unfold Wallet.step_sf. destruct (b && reaches_save key blob enc dec w o); [reflexivity|].
+    apply failed_step_unchanged.
+  Qed.
+
+  Lemma step_sf_ok : forall b w g o, Inv w -> Keyed w g -> op_caller_ok key blob w o ->
+    Inv (fst (step_sf b w o)) /\ Keyed (fst (step_sf b w o)) (gstep key g o (snd (step_sf b w o))).
+  Proof.
+    intros b w g o I K C. unfold Wallet.step_sf. destruct (b && reaches_save key blob enc dec w o).
+    - cbn [fst snd]. split; [assumption|]. destruct o; assumption.
+    - split; [apply step_inv; assumption|apply step_keyed; assumption].
+  Qed.
+
+  Lemma run_sf_inv : forall ops w g, Inv w -> Keyed w g -> caller_ok_sf key blob enc dec w ops ->
+    Inv (fst (fst (run_sf w g ops))) /\ Keyed (fst (fst (run_sf w g ops))) (snd (fst (run_sf w g ops))).
+  Proof.
+    induction ops as [|[b o] r IH]; intros w g I K C; [simpl; auto|].
+    destruct C as [Co Cr]. simpl. destruct (step_sf_ok b w g o I K Co) as [I1 K1].
+    destruct (step_sf b w o) as [w1 e] eqn:Es. cbn [fst snd] in *.
+    specialize (IH w1 (gstep key g o e) I1 K1 Cr).
+    destruct (run_sf w1 (gstep key g o e) r) as [[w2 g2] es]. exact IH.
+  Qed.
+
+  (** The main theorem with save failures anywhere in the history. *)
+  Theorem wallet_persists_sf : forall prm ops, caller_ok_sf key blob enc dec (init blob prm) ops ->
+    wallet_property key blob dec (fst (fst (run_sf (init blob prm) [] ops))) (snd (fst (run_sf (init blob prm) [] ops))).
+  Proof.
+    intros prm ops C. destruct (run_sf_inv ops (init blob prm) [] (init_inv prm) (init_keyed prm) C) as [I K].
+    apply property_from_invariants; assumption.
   Qed.
 
   (** *** several wallets open in one process *)
